@@ -9,6 +9,8 @@ from vf.space import PO, POK, VA, KWO, VK, show, shape_of, valid_shape
 
 PROP = 'C03'
 FLAGS = ('hide_args', 'hide_kwargs', 'hide_varargs', 'hide_varkwargs')
+import inspect as _inspect
+KWO_KIND = _inspect.Parameter.KEYWORD_ONLY
 _SL = {}
 
 
@@ -75,6 +77,13 @@ def shift(alpha, bits, n, E):
 
 def blocks(alpha, upto):
     return (1 << ((upto + 1) * alpha.kcount)) - 1 if upto >= 0 else 0
+
+
+def kwo_insensitive(sig):
+    """Parameters as inspect.Signature.__eq__ compares them: keyword-only parameters without their order."""
+    key = alg.params_key(sig)
+    kwo = int(KWO_KIND)
+    return tuple(p for p in key if p[1] != kwo), frozenset(p for p in key if p[1] == kwo)
 
 
 def do_mask(sig, n, names, flags):
@@ -239,7 +248,7 @@ def order_check(alpha, s, n, names, flagbits, st):
     if s1 == 'other' or s2 == 'other':
         return
     same = (s1 == 'ok') == (s2 == 'ok') and (s1 != 'ok' or (
-        alg.params_key(r1) == alg.params_key(r2)
+        kwo_insensitive(r1) == kwo_insensitive(r2)
         and sorted(k for k in r1.sources if k != '+depths') == sorted(k for k in r2.sources if k != '+depths')))
     if not same:
         st.violation('mask-order-dependent',
